@@ -134,7 +134,7 @@ def run(ctx, factor):
             j = g.r.randrange(len(ls))
             ls[j] = mutate(g, ls[j])
             compare_text(ctx, "\n".join(ls), "near-grammar(one character mutated)")
-        if rep.violations and factor > 1:
+        if rep.has_new() and factor > 1:
             return
     # `data16` prefixes: objdump prints them in front of padding (`data16 cs nopw 0x0(%rax,%rax,1)`) and alone (`data16`,
     # `data16 data16`) when 0x66 bytes precede an undecodable opcode or end a section; one record per line in all cases
